@@ -23,6 +23,10 @@ pub open spec fn seq_remove<T>(s: Seq<T>, x: T) -> Seq<T>
     }
 }
 
+pub trait KeyOf<T> { spec fn spec_in(&self, s: Seq<T>) -> bool; }
+impl<T> KeyOf<T> for T { open spec fn spec_in(&self, s: Seq<T>) -> bool { s.contains(*self) } }
+impl KeyOf<String> for str { open spec fn spec_in(&self, s: Seq<String>) -> bool { exists|i: int| 0 <= i < s.len() && (#[trigger] s[i])@ == self@ } }
+
 pub struct IndexSet<T> { pub v: Vec<T> }
 
 impl<T> View for IndexSet<T> {
@@ -39,8 +43,9 @@ impl<T> IndexSet<T> {
     #[verifier::external_body]
     pub fn new() -> (r: Self) ensures r@ == Seq::<T>::empty() { unimplemented!() }
 
+    /// indexmap: `contains<Q>(&self, value: &Q) where Q: Equivalent<T>` — a key may be looked up by a borrowed form (&str for String)
     #[verifier::external_body]
-    pub fn contains(&self, x: &T) -> (b: bool) ensures b == self@.contains(*x) { unimplemented!() }
+    pub fn contains<Q: ?Sized + KeyOf<T>>(&self, x: &Q) -> (b: bool) ensures b == x.spec_in(self@) { unimplemented!() }
 
     #[verifier::external_body]
     pub fn insert(&mut self, x: T) -> (b: bool)
